@@ -33,13 +33,15 @@ theorem tables_inv (h : List Op) :
 
 /-- cache_inv: after ANY history, for every open page iterator, every entry of its document's
 object cache has the payload a fresh parse returns, every cached object-stream content is the
-fresh content, and every cached font is the font its object denotes built from fresh values. -/
+fresh content, every cached font is the font its object denotes built from fresh values, and
+no object stream is left marked "in progress" (the guard set is empty between two operations). -/
 theorem cache_inv (h : List Op) (hid : Nat) (hd : Handle)
     (hopen : (hid, hd) ∈ (run W (init W) h).handles) :
     (∀ n v, (n, v) ∈ hd.c.objs → freshObj hd.doc n = some v.1) ∧
     (∀ sid l, (sid, l) ∈ hd.c.pobjs → l = streamObjs hd.doc sid) ∧
     (∀ n f, (n, f) ∈ hd.c.fonts → ∃ spec, alookup n hd.doc.fontSpecs = some spec ∧
-        f = fontPure W spec (freshObj hd.doc n :: spec.reads.map (freshObj hd.doc))) :=
+        f = fontPure W spec (freshObj hd.doc n :: spec.reads.map (freshObj hd.doc))) ∧
+    hd.c.busy = [] :=
   ((run_ok W h _ (StateOk.init W)).2 hid hd hopen).1
 
 /-- The in-place normalisation of cached objects (stream decoding, `resolve_all`) never changes
@@ -223,6 +225,23 @@ def initStateKeepPath (left : Interp) : Interp := { Interp.init with curpath := 
 page that paints: one painted rectangle becomes two shapes. -/
 theorem curpath_leak_cex :
     (runG (initStateKeepPath (runG Interp.init [.re]).1) [.re, .paint]).2 ≠ (runG Interp.init [.re, .paint]).2 := by
+  decide
+
+/-- A reference that cannot be resolved (no cross-reference entry, or a compressed entry whose index
+the object stream does not have) reads as null and leaves valid caches behind: what is read
+afterwards is still the fresh value. -/
+theorem C12_dangling_harmless (d : DocSpec) (caching : Bool) (c : Caches) (dang n : Nat)
+    (hc : CachesOk W d c) :
+    (readObj d caching (readObj d caching c dang).2 n).1 = freshObj d n :=
+  (readObj_spec W d caching _ n (readObj_spec W d caching c dang hc).2.1).1
+
+/-- The guard released only on success: after a failed lookup in object stream 9 the stream stays
+marked, and its other objects can no longer be read (they resolve to null). -/
+theorem guard_leak_cex :
+    let d : DocSpec := { objs := [(3, .inStream 9 203), (7, .danglingIn 9), (9, .direct 209)], fontSpecs := [],
+                         openReads := [], pages := [] }
+    let leaked : Caches := { (readObj d true Caches.empty 7).2 with busy := [9] }
+    (readObj d true leaked 3).1 ≠ freshObj d 3 ∧ (readObj d true (readObj d true Caches.empty 7).2 3).1 = freshObj d 3 := by
   decide
 
 /-! ## Why the discipline matters: proved counter-examples for two broken disciplines -/
